@@ -37,6 +37,9 @@ class P:
             term = P.c(v)
             for s, e in k:
                 base = val if s == name else P.s(s)
+                if s != name:
+                    term = term * P({((s, e),): Fr(1)})
+                    continue
                 assert e >= 0 and e == int(e)
                 for _ in range(int(e)): term = term * base
             out = out + term
@@ -48,3 +51,29 @@ class P:
             if not m: return str(v)
             return m if v == 1 else (f"-{m}" if v == -1 else f"{v}*{m}")
         return " + ".join(mon(k, v) for k, v in sorted(a.t.items())).replace("+ -", "- ")
+
+
+def P_div(a, b):
+    """a / b when b is a single monomial (Laurent division); None otherwise"""
+    b = P.lift(b)
+    if len(b.t) != 1:
+        return None
+    (k, v), = b.t.items()
+    invm = P({tuple((s, -e) for s, e in k): Fr(1) / v})
+    return P.lift(a) * invm
+
+
+def P_pow(a, n):
+    a = P.lift(a)
+    if n == int(n) and n >= 0:
+        r = P.c(1)
+        for _ in range(int(n)):
+            r = r * a
+        return r
+    if len(a.t) == 1:
+        (k, v), = a.t.items()
+        if n == int(n):
+            return P({tuple((s, e * int(n)) for s, e in k): v ** int(n)})
+        if v == 1:
+            return P({tuple((s, e * Fr(n).limit_denominator(64)) for s, e in k): Fr(1)})
+    return None
